@@ -52,7 +52,7 @@ class MVcf(File):
 KINDS = ("bare", "tree", "vdir")
 
 
-def install_state(kind, path, S, with_config=None):
+def install_state(kind, path, S, with_config=None, older=(), extra_blobs=()):
     """Create the collection directory at `path` holding state S (name -> bytes) *directly* in the model
     world (no history replay, no mutation counting) so that the representation invariant holds:
       tree: working-tree file = index entry = HEAD tree entry, no index.lock
@@ -79,7 +79,23 @@ def install_state(kind, path, S, with_config=None):
     w.files[ctl + "/HEAD"] = b"ref: refs/heads/master\n"
     w.files[ctl + "/config"] = b"[core]\n\tbare = " + (b"true" if bare else b"false") + b"\n"
     w.files[ctl + "/description"] = b"Unnamed repository"
-    if not S and with_config is None:
+    for body in extra_blobs:  # objects left behind by earlier history (git never forgets a blob)
+        b = Wm.Blob.from_string(body)
+        st.objects[b.id] = b
+    parent = []
+    for S_old in older:  # earlier commits on the branch (objects only: index / working tree show S)
+        t0 = Wm.Tree()
+        for name, body in S_old.items():
+            b = Wm.Blob.from_string(body)
+            st.objects[b.id] = b
+            t0[name.encode("utf-8")] = (0o644 | stat.S_IFREG, b.id)
+        st.objects[t0.id] = t0
+        w.commit_seq += 1
+        c0 = Wm.Commit(t0.id, parent, b"older", None, w.commit_seq)
+        st.objects[c0.id] = c0
+        parent = [c0.id]
+        st.refs[st.head] = c0.id
+    if not S and with_config is None and not older:
         return  # freshly initialised repository: no commit yet
     t = Wm.Tree()
     items = dict(S)
@@ -94,7 +110,7 @@ def install_state(kind, path, S, with_config=None):
             st.index[name.encode("utf-8")] = Wm.Entry(b.id, 0o100644)
     st.objects[t.id] = t
     w.commit_seq += 1
-    c = Wm.Commit(t.id, [], b"initial", None, w.commit_seq)
+    c = Wm.Commit(t.id, parent, b"initial", None, w.commit_seq)
     st.objects[c.id] = c
     st.refs[st.head] = c.id
 
